@@ -303,6 +303,12 @@ func BinFor(beg, end int) uint32 {
 // OverlappingBinsFor returns the bin numbers for all bins overlapping
 // an interval covering [beg,end) (zero-based, half-close-half-open).
 func OverlappingBinsFor(beg, end int) []uint32 {
+	// Nothing lies beyond the indexable range: without the limit the
+	// 32-bit bin arithmetic wraps for very large end values and the
+	// bins of the finer levels are lost.
+	if end > 1<<level0Shift {
+		end = 1 << level0Shift
+	}
 	end--
 	list := []uint32{level0}
 	for _, r := range []struct {
